@@ -95,6 +95,18 @@ func init() {
 		"IsStreaming", "IsTTHeader", "readKVInfo", "readIntKVInfo", "readStrKVInfo", "readACLToken", "checkProtocolID"} {
 		fnSpecs = append(fnSpecs, fnSpec{"protocol/ttheader", "", n, "tth_" + n})
 	}
+	// the write side of the generated structs and of TTHeader
+	for _, n := range []string{"WriteBinaryNocopy", "WriteStringNocopy"} {
+		fnSpecs = append(fnSpecs, fnSpec{"protocol/thrift", "BinaryProtocol", n, "Binary_" + n})
+	}
+	for _, st := range []string{"Base", "BaseResp"} {
+		for _, n := range []string{"BLength", "FastWriteNocopy", "FastWrite"} {
+			fnSpecs = append(fnSpecs, fnSpec{"protocol/thrift/base", st, n, st + "_" + n})
+		}
+	}
+	for _, n := range []string{"WriteByte", "WriteUint16", "WriteUint32", "WriteString", "WriteString2BLen", "writeKVInfo", "Encode"} {
+		fnSpecs = append(fnSpecs, fnSpec{"protocol/ttheader", "", n, "tth_" + n})
+	}
 }
 
 // ---------------------------------------------------------------- Lean types
@@ -343,6 +355,101 @@ func isMap(t types.Type) bool {
 	return lt == tMapIB || lt == tMapBB
 }
 
+// isNocopy: the interface thrift.NocopyWriter (`WriteDirect(b []byte, remainCap int) error`)
+func isNocopy(t types.Type) bool {
+	n, ok := t.(*types.Named)
+	return ok && n.Obj().Pkg() != nil && n.Obj().Pkg().Path() == mod+"protocol/thrift" && n.Obj().Name() == "NocopyWriter"
+}
+
+// ifaceParamKind: a parameter whose type is an interface the translator models as an abstract state with a record of
+// functions: bufiox.Reader, bufiox.Writer
+func ifaceParamKind(t types.Type) (string, bool) {
+	n, ok := t.(*types.Named)
+	if !ok || n.Obj().Pkg() == nil || n.Obj().Pkg().Path() != mod+"bufiox" {
+		return "", false
+	}
+	switch n.Obj().Name() {
+	case "Reader":
+		return "ReaderI", true
+	case "Writer":
+		return "WriterI", true
+	}
+	return "", false
+}
+
+// mapEntryTy: the Lean type of the entries of a supported map type
+func mapEntryTy(t types.Type) string {
+	switch leanType(t) {
+	case tMapIB:
+		return "(Int × Bytes)"
+	case tMapBB:
+		return "(Bytes × Bytes)"
+	}
+	return "?"
+}
+
+// extraState: the loop threads an extra leading state variable (the index of a range without key variable, the entries
+// still to be visited of a range over a map)
+func (r *rangeInfo) extraState() bool { return r != nil && (r.isMap || r.key == nil) }
+
+func (r *rangeInfo) extraTy() string {
+	if r.isMap {
+		return "List " + r.elemTy
+	}
+	return "Int"
+}
+
+// ordFor: the iteration-order parameter of the k-th map range reached through the node n (a range statement, or a call of
+// a function that has such parameters); one parameter per source position, however often the position is translated
+func (f *fctx) ordFor(n ast.Node, k int, ty string) string {
+	key := ordKey{n, k}
+	if nm, ok := f.ordOf[key]; ok {
+		return nm
+	}
+	nm := fmt.Sprintf("ord%d", len(f.ords)+1)
+	f.ords = append(f.ords, ordParam{nm, ty})
+	f.ordOf[key] = nm
+	return nm
+}
+
+// nilable: e is the receiver of a function whose pointer receiver may be nil, or the NocopyWriter parameter: its Lean name
+// (a value of an Option type)
+func (f *fctx) nilable(e ast.Expr) (string, bool) {
+	id, ok := stripParens(e).(*ast.Ident)
+	if !ok {
+		return "", false
+	}
+	o := f.pk.TypesInfo.Uses[id]
+	if o == nil {
+		return "", false
+	}
+	if f.fi.recvOpt && f.fi.recv != nil && o == types.Object(f.fi.recv) {
+		return f.nameOf(o), true
+	}
+	if f.fi.nocopy != nil && o == types.Object(f.fi.nocopy) {
+		return f.nameOf(o), true
+	}
+	return "", false
+}
+
+func (f *fctx) aliasOf(o types.Object) *alias {
+	for i := len(f.aliases) - 1; i >= 0; i-- {
+		if f.aliases[i].obj == o {
+			return &f.aliases[i]
+		}
+	}
+	return nil
+}
+
+func (f *fctx) isRegion(o types.Object) bool {
+	for _, rg := range f.regions {
+		if rg.obj == o {
+			return true
+		}
+	}
+	return false
+}
+
 func itName(t types.Type) (string, bool) {
 	bits, signed, ok := bitsOf(t)
 	if !ok {
@@ -371,6 +478,9 @@ type fnInfo struct {
 	ifaceFld string     // mixed receiver: the name of its bufiox.Reader field ("" = the receiver itself is the reader state)
 	iface    bool       // the receiver wraps a bufiox.Reader interface value: the receiver IS the abstract reader state ρ,
 	//                     and the function takes `{ρ : Type} (I : ReaderI ρ)` (the behaviour of the interface's methods)
+	recvOpt  bool       // the pointer receiver may be nil (the body tests `p == nil`, or hands p to such a method): `Option S`
+	nocopy   *types.Var // a thrift.NocopyWriter parameter: `Option ν` (none = nil), in/out, with its behaviour `J : NocopyI ν`
+	ords     []ordParam // one per `range` over a map (own or of a callee): the sequence of entries the loop visits
 	labels   map[string][]ast.Stmt // top-level labels: the statements from the label to the end of the body
 	selfrec  bool     // calls itself: defined by recursion on the fuel, loops take the recursive call as a parameter
 	fuel     bool     // has loops (directly or through callees): takes a leading `fuel : Nat`
@@ -390,8 +500,29 @@ type ftr struct {
 	structs map[string]*types.Named // struct types of receivers: Lean structure name -> Go type
 }
 
+// an iteration-order parameter: Go does not specify the order in which `range` visits a map, so the visited sequence is
+// an explicit parameter of the translated function (and of its callers); theorems quantify over it
+type ordParam struct{ name, ty string }
+
+type ordKey struct {
+	n ast.Node
+	k int
+}
+
+// a local slice variable that aliases a part of a region handed out by Malloc: `x := region[lo:hi]`
+type alias struct {
+	obj    types.Object
+	base   types.Object
+	off, n string
+	loop   *loopCtx
+}
+
 type fctx struct {
 	t       *ftr
+	ords    []ordParam
+	ordOf   map[ordKey]string
+	aliases []alias
+	loopCache map[string]string // abstracted text of a loop function -> its name (the same source loop translated twice)
 	fi      *fnInfo
 	pk      *packages.Package
 	names   map[types.Object]string
@@ -419,6 +550,8 @@ type region struct {
 // a `for` loop becomes a recursive Lean function over fuel; its result is `LoopR ρ σ`: the enclosing function returns
 // (ret), or the loop is left normally with the values of the variables it modifies (done)
 type rangeInfo struct {
+	isMap    bool         // range over a map: keyName is the list of entries still to be visited (threaded through the loop)
+	elemTy   string       // … and its Lean type
 	key, val types.Object // loop variables (either may be nil)
 	keyName  string       // Lean name of the index (a fresh name when the loop has no key variable)
 	rx, rlen string       // Lean names of the ranged slice and of its length, evaluated once before the loop
@@ -429,6 +562,7 @@ type loopCtx struct {
 	name string
 	free []types.Object // variables of the enclosing function the loop reads (parameters of the loop function)
 	mods []types.Object // the ones it assigns (threaded through the recursion, returned on exit)
+	handles []string    // handles of the Malloc'ed regions that are live when the loop is entered (a return inside the loop commits them)
 	post ast.Stmt
 }
 
@@ -626,6 +760,15 @@ func (f *fctx) tyOf(o types.Object) string {
 	if f.fi.ifaceParam && types.Object(f.fi.recv) == o {
 		return "ρ"
 	}
+	if isNocopy(o.Type()) {
+		return "(Option ν)"
+	}
+	if f.fi.recvOpt && f.fi.recv != nil && types.Object(f.fi.recv) == o {
+		if n, _, ok := structOf(o.Type()); ok {
+			f.t.structs[structLeanName(n)] = n
+			return "(Option " + structLeanName(n) + ")"
+		}
+	}
 	if n, _, _, ok := mixedRecv(o.Type()); ok {
 		f.t.structs[structLeanName(n)] = n
 		return "(" + structLeanName(n) + " ρ)"
@@ -687,7 +830,7 @@ func tupleOf(xs []string, unit string) string {
 
 func (f *fctx) modTuple(l *loopCtx) string {
 	var xs []string
-	if l.rng != nil && l.rng.key == nil {
+	if l.rng.extraState() {
 		xs = append(xs, l.rng.keyName)
 	}
 	for _, o := range l.mods {
@@ -734,11 +877,11 @@ func (f *fctx) loopNext(b *blk) {
 		}
 		f.loop = saved
 	}
-	if l.rng != nil {
+	if l.rng != nil && !l.rng.isMap {
 		b.add(fmt.Sprintf("let %s := wrap .i64 (%s + 1)", l.rng.keyName, l.rng.keyName))
 	}
 	call := f.loopCall(l, "fuel")
-	if len(l.mods) == 0 && !(l.rng != nil && l.rng.key == nil) {
+	if len(l.mods) == 0 && !l.rng.extraState() {
 		call += " ()"
 	}
 	b.add(call)
@@ -761,16 +904,17 @@ func (f *fctx) loopCall(l *loopCtx, fuel string) string {
 			args = append(args, f.nameOf(o)+"_off")
 		}
 	}
+	if l.rng != nil && !l.rng.isMap {
+		args = append(args, l.rng.rx, l.rng.rlen)
+	}
 	for _, o := range l.mods {
 		if f.hasOff(o) {
 			args = append(args, f.nameOf(o)+"_off")
 		}
 	}
-	if l.rng != nil {
-		args = append(args, l.rng.rx, l.rng.rlen)
-	}
+	args = append(args, l.handles...)
 	args = append(args, fuel)
-	if l.rng != nil && l.rng.key == nil {
+	if l.rng.extraState() {
 		args = append(args, l.rng.keyName)
 	}
 	for _, o := range l.mods {
@@ -854,10 +998,19 @@ func (f *fctx) assignedIn(nodes ...ast.Node) map[types.Object]bool {
 						out[f.fi.recv] = true
 					}
 				}
+				// a method of the abstract interface value passed as a parameter changes its state
+				if se, ok := stripParens(x.Fun).(*ast.SelectorExpr); ok {
+					if id, ok := stripParens(se.X).(*ast.Ident); ok {
+						if o := info.Uses[id]; o != nil && isNocopy(o.Type()) {
+							out[o] = true
+						}
+					}
+				}
 				// any argument that is a view, a map, &x or an in/out pointer may be written by the callee
 				for _, a := range x.Args {
 					if o := base(a); o != nil {
-						if v, ok := o.(*types.Var); ok && (f.views[o] || isMap(v.Type()) || isIntPtr(v.Type())) {
+						if v, ok := o.(*types.Var); ok && (f.views[o] || isMap(v.Type()) || isIntPtr(v.Type()) || isNocopy(v.Type()) ||
+							(f.fi.ifaceParam && f.fi.recv != nil && o == types.Object(f.fi.recv))) {
 							out[o] = true
 						} else if u, ok := stripParens(a).(*ast.UnaryExpr); ok && u.Op == token.AND {
 							out[o] = true
@@ -875,6 +1028,10 @@ func (f *fctx) assignedIn(nodes ...ast.Node) map[types.Object]bool {
 // evaluated once, then an index loop
 func (f *fctx) rangeStmt(b *blk, st *ast.RangeStmt, tail []ast.Stmt, depth int) {
 	info := f.pk.TypesInfo
+	if isMap(info.TypeOf(st.X)) {
+		f.rangeMap(b, st, tail, depth)
+		return
+	}
 	if leanType(info.TypeOf(st.X)) != tBytes {
 		f.fail(st, "range over %s not supported", info.TypeOf(st.X))
 	}
@@ -898,6 +1055,52 @@ func (f *fctx) rangeStmt(b *blk, st *ast.RangeStmt, tail []ast.Stmt, depth int) 
 		ri.keyName = f.fresh()
 	}
 	b.add("let " + ri.keyName + " := 0")
+	f.pendingRange = ri
+	f.forStmt(b, &ast.ForStmt{For: st.For, Body: st.Body}, tail, depth)
+}
+
+// rangeMap: `for k, v := range m` over a map. Go visits every entry once in an unspecified order: the sequence of visited
+// entries is an explicit parameter `ord<k>` of the translated function (GoSem.MapOrder states what Go guarantees about
+// it); the loop threads the entries still to be visited. Refused: a body that changes the map, a range inside a loop (one
+// order parameter stands for one execution of the statement).
+func (f *fctx) rangeMap(b *blk, st *ast.RangeStmt, tail []ast.Stmt, depth int) {
+	info := f.pk.TypesInfo
+	if f.loop != nil {
+		f.fail(st, "range over a map inside a loop")
+	}
+	if f.fi.selfrec {
+		f.fail(st, "range over a map in a self-recursive function")
+	}
+	if st.Tok != token.DEFINE && (st.Key != nil || st.Value != nil) {
+		f.fail(st, "range assigning to existing variables")
+	}
+	// the object the map expression starts from must not be assigned in the body
+	root := stripParens(st.X)
+	for {
+		if se, ok := root.(*ast.SelectorExpr); ok {
+			root = stripParens(se.X)
+			continue
+		}
+		break
+	}
+	rid, ok := root.(*ast.Ident)
+	if !ok {
+		f.fail(st, "range over the map expression %s", f.src(st.X))
+	}
+	if ro := info.Uses[rid]; ro == nil || f.assignedIn(st.Body)[ro] {
+		f.fail(st, "range over a map that the loop body may change")
+	}
+	f.expr(b, st.X) // evaluated once (a nil receiver panics here); the entries come from the order parameter
+	ri := &rangeInfo{isMap: true, elemTy: mapEntryTy(info.TypeOf(st.X))}
+	if id, ok := st.Key.(*ast.Ident); ok && id.Name != "_" {
+		ri.key = info.Defs[id]
+	}
+	if id, ok := st.Value.(*ast.Ident); ok && id.Name != "_" {
+		ri.val = info.Defs[id]
+	}
+	ord := f.ordFor(st, 0, "List "+ri.elemTy)
+	ri.keyName = f.fresh()
+	b.add("let " + ri.keyName + " := " + ord)
 	f.pendingRange = ri
 	f.forStmt(b, &ast.ForStmt{For: st.For, Body: st.Body}, tail, depth)
 }
@@ -931,6 +1134,9 @@ func (f *fctx) forStmt(b *blk, st *ast.ForStmt, tail []ast.Stmt, depth int) {
 			if o.Pos() >= st.Body.Lbrace || seen[o] {
 				return true
 			}
+			if rng != nil && (types.Object(o) == rng.val || (rng.isMap && types.Object(o) == rng.key)) {
+				return true // bound anew in every iteration
+			}
 			if _, known := f.names[o]; !known {
 				return true
 			}
@@ -952,7 +1158,41 @@ func (f *fctx) forStmt(b *blk, st *ast.ForStmt, tail []ast.Stmt, depth int) {
 	})
 	sort.Slice(free, func(i, j int) bool { return free[i].Pos() < free[j].Pos() })
 	asg := f.assignedIn(st.Post, st.Body)
-	if rng != nil && rng.key != nil {
+	// regions handed out by Malloc that are live here: a return inside the loop commits them, so the loop function takes
+	// the region variables, their handles and the writer state
+	var handles []string
+	for _, rg := range f.regions {
+		handles = append(handles, rg.handle)
+		if !seen[rg.obj] {
+			seen[rg.obj] = true
+			free = append(free, rg.obj)
+		}
+	}
+	if len(f.regions) > 0 && f.fi.recv != nil && !seen[f.fi.recv] {
+		seen[f.fi.recv] = true
+		free = append(free, f.fi.recv)
+	}
+	// a return inside the loop returns the in/out parameters and the receiver as well
+	if hasReturn(st.Body) {
+		fsig := f.fi.obj.Type().(*types.Signature)
+		var extra []types.Object
+		if f.fi.recvMut && f.fi.recv != nil {
+			extra = append(extra, f.fi.recv)
+		}
+		for i := 0; i < fsig.Params().Len(); i++ {
+			if f.fi.mutated[i] {
+				extra = append(extra, fsig.Params().At(i))
+			}
+		}
+		for _, o := range extra {
+			if _, known := f.names[o]; known && !seen[o] {
+				seen[o] = true
+				free = append(free, o)
+			}
+		}
+	}
+	sort.Slice(free, func(i, j int) bool { return free[i].Pos() < free[j].Pos() })
+	if rng != nil && !rng.isMap && rng.key != nil {
 		if !seen[rng.key] {
 			free = append(free, rng.key)
 			sort.Slice(free, func(i, j int) bool { return free[i].Pos() < free[j].Pos() })
@@ -966,7 +1206,7 @@ func (f *fctx) forStmt(b *blk, st *ast.ForStmt, tail []ast.Stmt, depth int) {
 		}
 	}
 	f.fi.nloops++
-	l := &loopCtx{name: fmt.Sprintf("%s_loop%d", f.fi.spec.lean, f.fi.nloops), free: free, mods: mods, post: st.Post, rng: rng}
+	l := &loopCtx{name: fmt.Sprintf("%s_loop%d", f.fi.spec.lean, f.fi.nloops), free: free, mods: mods, post: st.Post, rng: rng, handles: handles}
 	// the loop function
 	var params []string
 	if f.fi.selfrec {
@@ -981,12 +1221,12 @@ func (f *fctx) forStmt(b *blk, st *ast.ForStmt, tail []ast.Stmt, depth int) {
 			params = append(params, fmt.Sprintf("(%s_off : Int)", f.nameOf(o)))
 		}
 	}
-	if rng != nil {
+	if rng != nil && !rng.isMap {
 		params = append(params, fmt.Sprintf("(%s : Bytes) (%s : Int)", rng.rx, rng.rlen))
 	}
 	var mtys, mnames []string
-	if rng != nil && rng.key == nil {
-		mtys = append(mtys, "Int")
+	if rng.extraState() {
+		mtys = append(mtys, rng.extraTy())
 		mnames = append(mnames, rng.keyName)
 	}
 	for _, o := range mods {
@@ -998,6 +1238,9 @@ func (f *fctx) forStmt(b *blk, st *ast.ForStmt, tail []ast.Stmt, depth int) {
 		}
 	}
 	sigma := "Unit"
+for _, h := range handles {
+		params = append(params, fmt.Sprintf("(%s : Nat)", h))
+	}
 	if len(mtys) > 0 {
 		sigma = strings.Join(mtys, " × ")
 	}
@@ -1005,7 +1248,21 @@ func (f *fctx) forStmt(b *blk, st *ast.ForStmt, tail []ast.Stmt, depth int) {
 	f.loop, f.inSw = l, 0
 	nglob := len(f.globals)
 	body := &blk{}
-	if rng != nil {
+	if rng != nil && rng.isMap {
+		inner := &blk{}
+		e := f.fresh()
+		if rng.key != nil {
+			inner.add(fmt.Sprintf("let %s := %s.1", f.nameOf(rng.key), e))
+		}
+		if rng.val != nil {
+			inner.add(fmt.Sprintf("let %s := %s.2", f.nameOf(rng.val), e))
+		}
+		inner.lines = append(inner.lines, f.stmts(st.Body.List, nil, depth+1)...)
+		body.add("match " + rng.keyName + " with")
+		body.add("| [] => pure (LoopR.done " + f.modTuple(l) + ")")
+		body.add(fmt.Sprintf("| %s :: %s => do", e, rng.keyName))
+		body.add(strings.TrimRight(indent(inner.lines, 1), "\n"))
+	} else if rng != nil {
 		inner := &blk{}
 		if rng.val != nil {
 			t := f.fresh()
@@ -1040,12 +1297,24 @@ func (f *fctx) forStmt(b *blk, st *ast.ForStmt, tail []ast.Stmt, depth int) {
 	fmt.Fprintf(&sb, "  | 0, %s => .panic \"nofuel\"\n", strings.Join(underscores(len(mtysOrUnit(mtys))), ", "))
 	fmt.Fprintf(&sb, "  | fuel+1, %s => do\n", strings.Join(namesOrUnit(mnames), ", "))
 	sb.WriteString(indent(body.lines, 2))
-	f.fi.pre = append(f.fi.pre, sb.String())
+	// the code after an `if` is duplicated into both branches, and a loop in it with it: a second translation of the same
+	// source loop that differs only in the names of temporaries reuses the first loop function
+	key := loopKey(sb.String(), l.name)
+	if f.loopCache == nil {
+		f.loopCache = map[string]string{}
+	}
+	if prev, ok := f.loopCache[key]; ok {
+		l.name = prev
+		f.fi.nloops--
+	} else {
+		f.loopCache[key] = l.name
+		f.fi.pre = append(f.fi.pre, sb.String())
+	}
 	// the call site
 	t := f.fresh()
 	call := f.loopCall(l, "fuel")
 	extraMod := 0
-	if rng != nil && rng.key == nil {
+	if rng.extraState() {
 		extraMod = 1
 	}
 	if len(mods)+extraMod == 0 {
@@ -1066,6 +1335,58 @@ func (f *fctx) forStmt(b *blk, st *ast.ForStmt, tail []ast.Stmt, depth int) {
 	after.lines = append(after.lines, f.stmts(tail, nil, depth+1)...)
 	b.add("| LoopR.done s => do")
 	b.add(strings.TrimRight(indent(after.lines, 1), "\n"))
+}
+
+// loopKey: the text of a loop function with its own name and the numbers of the temporaries abstracted (temporaries are
+// renumbered in order of first appearance)
+func loopKey(text, name string) string {
+	text = strings.ReplaceAll(text, name, "«L»")
+	var sb strings.Builder
+	seen := map[string]int{}
+	isId := func(c byte) bool {
+		return c == '_' || c == '.' || c >= '0' && c <= '9' || c >= 'a' && c <= 'z' || c >= 'A' && c <= 'Z' || c >= 0x80
+	}
+	for i := 0; i < len(text); {
+		if text[i] == 't' && (i == 0 || !isId(text[i-1])) {
+			j := i + 1
+			for j < len(text) && text[j] >= '0' && text[j] <= '9' {
+				j++
+			}
+			if j > i+1 && (j == len(text) || !isId(text[j]) || text[j] == '.') {
+				tok := text[i:j]
+				k, ok := seen[tok]
+				if !ok {
+					k = len(seen) + 1
+					seen[tok] = k
+				}
+				fmt.Fprintf(&sb, "τ%d", k)
+				i = j
+				continue
+			}
+		}
+		sb.WriteByte(text[i])
+		i++
+	}
+	return sb.String()
+}
+
+// hasReturn: a `return` or a `goto` (to labelled code that returns) anywhere in the loop body
+func hasReturn(body *ast.BlockStmt) bool {
+	found := false
+	ast.Inspect(body, func(n ast.Node) bool {
+		switch x := n.(type) {
+		case *ast.ReturnStmt:
+			found = true
+		case *ast.BranchStmt:
+			if x.Tok == token.GOTO {
+				found = true
+			}
+		case *ast.FuncLit:
+			return false
+		}
+		return !found
+	})
+	return found
 }
 
 // hasBreak: a `break` that leaves this loop (not one nested in an inner loop or switch)
@@ -1187,11 +1508,11 @@ func (f *fctx) switchStmt(b *blk, st *ast.SwitchStmt, tail []ast.Stmt, depth int
 			}
 		}
 		cond := strings.Join(conds, " || ")
-		nreg := len(f.regions)
+		nreg, nal := len(f.regions), len(f.aliases)
 		thenL := f.stmts(cc.Body, tail, depth+1)
-		f.regions = f.regions[:nreg]
+		f.regions, f.aliases = f.regions[:nreg], f.aliases[:nal]
 		elseL := gen(k + 1)
-		f.regions = f.regions[:nreg]
+		f.regions, f.aliases = f.regions[:nreg], f.aliases[:nal]
 		cb.add("if " + cond + " then do")
 		cb.add(strings.TrimRight(indent(thenL, 1), "\n"))
 		cb.add("else do")
@@ -1223,11 +1544,11 @@ func (f *fctx) ifStmt(b *blk, st *ast.IfStmt, tail []ast.Stmt, depth int) {
 		f.fail(st, "else form not supported")
 	}
 	// names defined inside a branch must not leak into the other branch's numbering: names are per object, fine
-	nreg := len(f.regions)
+	nreg, nal := len(f.regions), len(f.aliases)
 	thenLines := f.stmts(st.Body.List, tail, depth+1)
-	f.regions = f.regions[:nreg]
+	f.regions, f.aliases = f.regions[:nreg], f.aliases[:nal]
 	elseLines := f.stmts(els, tail, depth+1)
-	f.regions = f.regions[:nreg]
+	f.regions, f.aliases = f.regions[:nreg], f.aliases[:nal]
 	b.add("if " + cond + " then do")
 	b.add(strings.TrimRight(indent(thenLines, 1), "\n"))
 	b.add("else do")
@@ -1268,7 +1589,7 @@ func (f *fctx) ret(b *blk, st *ast.ReturnStmt) {
 	var vals []string
 	if len(st.Results) == 0 {
 		for _, o := range f.named {
-			vals = append(vals, f.nameOf(o))
+			vals = append(vals, f.valueOf(o))
 		}
 		if len(vals) != n {
 			f.fail(st, "bare return without named results")
@@ -1385,6 +1706,21 @@ func (f *fctx) assign(b *blk, st *ast.AssignStmt) {
 				f.store(b, ix, st.Rhs[0])
 				return
 			}
+			// x := region[lo:hi] — a slice that aliases a part of a Malloc'ed region: not a copy. The variable stands for
+			// (region, lo, hi-lo); stores through it go into the region, a read yields the region's contents at that time.
+			if sl, ok := stripParens(st.Rhs[0]).(*ast.SliceExpr); ok && sl.Max == nil {
+				if id, ok := stripParens(sl.X).(*ast.Ident); ok {
+					if bo := info.Uses[id]; bo != nil && f.isRegion(bo) {
+						lo := f.lhsObj(st.Lhs[0])
+						if lo == nil || f.views[lo] || leanType(lo.Type()) != tBytes {
+							f.fail(st, "a part of a Malloc'ed region must be bound to a slice variable")
+						}
+						off, n := f.subRange(b, bo, sl)
+						f.aliases = append(f.aliases, alias{lo, bo, off, n, f.loop})
+						return
+					}
+				}
+			}
 		}
 		if len(st.Lhs) == len(st.Rhs) {
 			// evaluate all right-hand sides first (Go semantics for tuple assignment)
@@ -1425,6 +1761,19 @@ func (f *fctx) assign(b *blk, st *ast.AssignStmt) {
 				f.bindTarget(b, st, l, vals[i])
 			}
 			return
+		}
+		if len(st.Rhs) == 1 && len(st.Lhs) == 2 {
+			if ix, ok := stripParens(st.Rhs[0]).(*ast.IndexExpr); ok && isMap(info.TypeOf(ix.X)) {
+				// v, ok := m[k]
+				mt := info.TypeOf(ix.X).Underlying().(*types.Map)
+				m := f.expr(b, ix.X)
+				k := f.exprAs(b, ix.Index, mt.Key())
+				t := f.fresh()
+				b.add(fmt.Sprintf("let %s := mapGet %s %s", t, atom(m), atom(k)))
+				f.bindTarget(b, st, st.Lhs[0], fmt.Sprintf("Option.getD %s %s", t, leanType(mt.Elem()).zero()))
+				f.bindTarget(b, st, st.Lhs[1], fmt.Sprintf("Option.isSome %s", t))
+				return
+			}
 		}
 		if len(st.Rhs) == 1 {
 			call, ok := stripParens(st.Rhs[0]).(*ast.CallExpr)
@@ -1501,6 +1850,21 @@ func (f *fctx) incdec(b *blk, st *ast.IncDecStmt) {
 
 func (f *fctx) decl(b *blk, st *ast.DeclStmt) {
 	gd, ok := st.Decl.(*ast.GenDecl)
+	if ok && gd.Tok == token.CONST {
+		// a local constant: every use is a constant expression whose value the type checker has (emitted as a literal)
+		for _, sp := range gd.Specs {
+			vs, ok := sp.(*ast.ValueSpec)
+			if !ok {
+				f.fail(st, "declaration not supported")
+			}
+			for _, id := range vs.Names {
+				if c, ok := f.pk.TypesInfo.Defs[id].(*types.Const); !ok || c.Val() == nil {
+					f.fail(st, "constant declaration without a value")
+				}
+			}
+		}
+		return
+	}
 	if !ok || gd.Tok != token.VAR {
 		f.fail(st, "declaration not supported")
 	}
@@ -1546,6 +1910,9 @@ func (f *fctx) viewOf(b *blk, e ast.Expr) (types.Object, string, bool) {
 		if o != nil && f.views[o] {
 			return o, f.nameOf(o) + "_off", true
 		}
+		if o != nil && f.aliasOf(o) != nil {
+			return nil, "", false
+		}
 		if v, ok := o.(*types.Var); ok && leanType(v.Type()) == tBytes && v.Parent() != v.Pkg().Scope() {
 			if _, known := f.names[o]; known {
 				return o, "0", true // a local slice passed whole to a callee that writes through it
@@ -1557,6 +1924,9 @@ func (f *fctx) viewOf(b *blk, e ast.Expr) (types.Object, string, bool) {
 			return nil, "", false
 		}
 		o := f.pk.TypesInfo.Uses[id]
+		if o != nil && f.aliasOf(o) != nil {
+			return nil, "", false
+		}
 		if v, ok := o.(*types.Var); ok && !f.views[o] && leanType(v.Type()) == tBytes && v.Parent() != v.Pkg().Scope() {
 			if _, known := f.names[o]; known {
 				// a tail of a local slice
@@ -1575,6 +1945,68 @@ func (f *fctx) viewOf(b *blk, e ast.Expr) (types.Object, string, bool) {
 		return o, t, true
 	}
 	return nil, "", false
+}
+
+// subRange: `base[lo:hi]` of a local slice the function writes through: the bounds check, then (lo, hi-lo)
+func (f *fctx) subRange(b *blk, base types.Object, sl *ast.SliceExpr) (string, string) {
+	bn := f.nameOf(base)
+	lo, hi := "0", "(len "+bn+")"
+	if sl.Low != nil {
+		lo = atom(f.expr(b, sl.Low))
+	}
+	if sl.High != nil {
+		hi = atom(f.expr(b, sl.High))
+	}
+	b.add(fmt.Sprintf("bchk (len %s) %s %s", bn, lo, hi))
+	n := fmt.Sprintf("(%s - %s)", hi, lo)
+	if sl.Low != nil && sl.High != nil {
+		if lv, ok1 := constInt(f.pk, sl.Low); ok1 {
+			if hv, ok2 := constInt(f.pk, sl.High); ok2 {
+				n = atom(fmt.Sprintf("%d", hv-lv))
+			}
+		}
+	} else if sl.Low == nil && sl.High != nil {
+		n = hi
+	}
+	return lo, n
+}
+
+// boundedOf: e is a slice with an upper bound into a local slice the function writes through — a variable that aliases
+// a part of a region, or `local[lo:hi]`: (the local slice, offset, length)
+func (f *fctx) boundedOf(b *blk, e ast.Expr) (types.Object, string, string, bool) {
+	e = stripParens(e)
+	switch x := e.(type) {
+	case *ast.Ident:
+		if o := f.pk.TypesInfo.Uses[x]; o != nil {
+			if al := f.aliasOf(o); al != nil {
+				if al.loop != f.loop {
+					f.fail(e, "alias %s of a region used inside another loop", x.Name)
+				}
+				return al.base, atom(al.off), atom(al.n), true
+			}
+		}
+	case *ast.SliceExpr:
+		id, ok := stripParens(x.X).(*ast.Ident)
+		if !ok || x.High == nil || x.Max != nil {
+			return nil, "", "", false
+		}
+		o := f.pk.TypesInfo.Uses[id]
+		if v, ok := o.(*types.Var); ok && !f.views[o] && f.aliasOf(o) == nil && leanType(v.Type()) == tBytes && v.Parent() != v.Pkg().Scope() {
+			if _, known := f.names[o]; known {
+				off, n := f.subRange(b, o, x)
+				return o, off, n, true
+			}
+		}
+	}
+	return nil, "", "", false
+}
+
+// valueOf: the current value of a variable (a slice that aliases a part of a region: that part's contents)
+func (f *fctx) valueOf(o types.Object) string {
+	if al := f.aliasOf(o); al != nil {
+		return fmt.Sprintf("(bsub %s %s %s)", f.nameOf(al.base), atom(al.off), atom(al.n))
+	}
+	return f.nameOf(o)
 }
 
 // elemType: the element type stored by `x[i] = …` (a byte for slices, the value type for maps)
@@ -1613,6 +2045,9 @@ func (f *fctx) storeVal(b *blk, ix *ast.IndexExpr, rhsVal string) {
 		n := f.nameOf(o)
 		b.add(fmt.Sprintf("let %s ← mapSet %s %s %s", n, n, atom(k), atom(v)))
 		return
+	}
+	if o != nil && f.aliasOf(o) != nil {
+		f.fail(ix, "store through a slice that aliases a part of a region")
 	}
 	if v, ok := o.(*types.Var); ok && !f.views[o] && leanType(v.Type()) == tBytes && v.Parent() != v.Pkg().Scope() {
 		if _, known := f.names[o]; known {
@@ -1722,6 +2157,12 @@ func (f *fctx) selName(call *ast.CallExpr) (recv string, name string) {
 func (f *fctx) builtinEffect(b *blk, call *ast.CallExpr) bool {
 	recv, name := f.selName(call)
 	if recv == "binary.BigEndian" && putFns[name] != "" && len(call.Args) == 2 {
+		if o, off, n, ok := f.boundedOf(b, call.Args[0]); ok {
+			v := f.expr(b, call.Args[1])
+			nm := f.nameOf(o)
+			b.add(fmt.Sprintf("let %s ← b%s %s %s %s %s", nm, strings.TrimPrefix(putFns[name], "v"), nm, off, n, atom(v)))
+			return true
+		}
 		o, off, ok := f.viewOf(b, call.Args[0])
 		if !ok {
 			f.fail(call, "%s into something that is not a written-through parameter", name)
@@ -1840,6 +2281,16 @@ func (f *fctx) canPanic(e ast.Expr) bool {
 		switch x := n.(type) {
 		case *ast.IndexExpr, *ast.SliceExpr:
 			found = true
+		case *ast.SelectorExpr:
+			if _, ok := f.nilable(x.X); ok {
+				found = true // a field of a receiver that may be nil
+			}
+		case *ast.BinaryExpr:
+			if x.Op == token.QUO || x.Op == token.REM {
+				if c, ok := constInt(f.pk, x.Y); !ok || c == 0 {
+					found = true
+				}
+			}
 		case *ast.CallExpr:
 			if tv, ok := f.pk.TypesInfo.Types[x.Fun]; ok && tv.IsType() {
 				return true // a conversion
@@ -1901,6 +2352,12 @@ func (f *fctx) expr(b *blk, e ast.Expr) string {
 		if id, ok := stripParens(x.X).(*ast.Ident); ok {
 			if o, ok := info.Uses[id].(*types.Var); ok && f.isStructVar(o) {
 				if sel, ok := info.Selections[x]; ok && sel.Kind() == types.FieldVal {
+					if f.fi.recvOpt && types.Object(o) == types.Object(f.fi.recv) {
+						// the receiver may be nil: the field access dereferences it
+						t := f.fresh()
+						b.add(fmt.Sprintf("let %s ← derefP %s", t, f.nameOf(o)))
+						return t + "." + x.Sel.Name
+					}
 					return f.nameOf(o) + "." + x.Sel.Name
 				}
 			}
@@ -1980,6 +2437,12 @@ func (f *fctx) expr(b *blk, e ast.Expr) string {
 				}
 			}
 		}
+		if mt, ok := info.TypeOf(x.X).Underlying().(*types.Map); ok && isMap(info.TypeOf(x.X)) {
+			// m[k] read: the zero value when the key is absent
+			m := f.expr(b, x.X)
+			k := f.exprAs(b, x.Index, mt.Key())
+			return fmt.Sprintf("Option.getD (mapGet %s %s) %s", atom(m), atom(k), leanType(mt.Elem()).zero())
+		}
 		if leanType(info.TypeOf(x.X)) != tBytes {
 			f.fail(e, "index into %s", info.TypeOf(x.X))
 		}
@@ -2047,6 +2510,16 @@ func (f *fctx) ident(b *blk, id *ast.Ident, o types.Object) string {
 		}
 		if f.views[o] {
 			f.fail(id, "written-through parameter %s used as a value", v.Name())
+		}
+		if al := f.aliasOf(o); al != nil {
+			// a slice that aliases a part of a Malloc'ed region, read: the contents of that part now
+			if al.loop != f.loop {
+				f.fail(id, "alias %s of a region used inside another loop", v.Name())
+			}
+			return fmt.Sprintf("(bsub %s %s %s)", f.nameOf(al.base), atom(al.off), atom(al.n))
+		}
+		if _, isN := f.nilable(id); isN {
+			f.fail(id, "%s (a pointer or interface value that may be nil) used as a value", v.Name())
 		}
 		return f.nameOf(o)
 	case *types.Nil:
@@ -2188,7 +2661,44 @@ func (f *fctx) binary(b *blk, x *ast.BinaryExpr, tv types.TypeAndValue) string {
 			return fmt.Sprintf("(%s && %s)", atom(l), atom(r))
 		}
 		return fmt.Sprintf("(%s || %s)", atom(l), atom(r))
+	case token.QUO, token.REM:
+		it, ok := itName(tv.Type)
+		if !ok {
+			f.fail(x, "division on %s", tv.Type)
+		}
+		l := f.expr(b, x.X)
+		fn, gfn := "Int.tdiv", "goDiv"
+		if x.Op == token.REM {
+			fn, gfn = "Int.tmod", "goMod"
+		}
+		if ctv := info.Types[x.Y]; ctv.Value != nil {
+			if c, ok := constInt(f.pk, x.Y); ok && c != 0 {
+				// a non-zero constant divisor: no panic; Go truncates toward zero
+				r, _ := intLit(ctv.Value)
+				return fmt.Sprintf("wrap %s (%s %s %s)", it, fn, atom(l), atom(r))
+			}
+		}
+		r := f.expr(b, x.Y)
+		t := f.fresh()
+		b.add(fmt.Sprintf("let %s ← %s %s %s %s", t, gfn, it, atom(l), atom(r)))
+		return t
 	case token.EQL, token.NEQ, token.LSS, token.LEQ, token.GTR, token.GEQ:
+		if x.Op == token.EQL || x.Op == token.NEQ {
+			// p == nil, w == nil for a receiver / interface parameter that may be nil
+			var nm string
+			var isN bool
+			if info.Types[x.Y].IsNil() {
+				nm, isN = f.nilable(x.X)
+			} else if info.Types[x.X].IsNil() {
+				nm, isN = f.nilable(x.Y)
+			}
+			if isN {
+				if x.Op == token.EQL {
+					return "(Option.isNone " + nm + ")"
+				}
+				return "(Option.isSome " + nm + ")"
+			}
+		}
 		lt := info.TypeOf(x.X)
 		rt := info.TypeOf(x.Y)
 		l := f.exprAs(b, x.X, rt)
@@ -2254,6 +2764,9 @@ func (f *fctx) callMulti(b *blk, call *ast.CallExpr, n int) []string {
 				if o, off, ok := f.viewOf(b, sl); ok {
 					return []string{fmt.Sprintf("vlen %s %s", f.nameOf(o), off)}
 				}
+			}
+			if isMap(info.TypeOf(a)) {
+				return []string{"mapLen " + atom(f.expr(b, a))}
 			}
 			if leanType(info.TypeOf(a)) != tBytes {
 				f.fail(call, "len of %s", info.TypeOf(a))
@@ -2354,6 +2867,22 @@ func (f *fctx) callMulti(b *blk, call *ast.CallExpr, n int) []string {
 	}
 	if recv == "" && name == "NewProtocolExceptionWithErr" && len(call.Args) == 1 {
 		return []string{"wrapErr " + atom(f.expr(b, call.Args[0]))}
+	}
+	// a method of the NocopyWriter parameter: a nil interface value panics, otherwise the abstract writer `J`
+	if se, ok := stripParens(call.Fun).(*ast.SelectorExpr); ok && f.fi.nocopy != nil {
+		if id, ok := stripParens(se.X).(*ast.Ident); ok && info.Uses[id] == types.Object(f.fi.nocopy) {
+			if se.Sel.Name != "WriteDirect" || len(call.Args) != 2 {
+				f.fail(call, "NocopyWriter method %s not supported", se.Sel.Name)
+			}
+			wn := f.nameOf(f.fi.nocopy)
+			a0 := f.expr(b, call.Args[0])
+			a1 := f.expr(b, call.Args[1])
+			st, t := f.fresh(), f.fresh()
+			b.add(fmt.Sprintf("let %s ← derefP %s", st, wn))
+			b.add(fmt.Sprintf("let %s ← J.writeDirect %s %s %s", t, st, atom(a0), atom(a1)))
+			b.add(fmt.Sprintf("let %s := some %s.2", wn, t))
+			return []string{t + ".1"}
+		}
 	}
 	// a method of the bufiox.Reader interface value held by the receiver: the abstract reader `I`
 	if se, ok := stripParens(call.Fun).(*ast.SelectorExpr); ok && f.fi.iface {
@@ -2510,8 +3039,26 @@ func (f *fctx) callMulti(b *blk, call *ast.CallExpr, n int) []string {
 		if !f.fi.iface {
 			f.fail(call, "call of %s from a function without an abstract reader", ci.spec.lean)
 		}
+		if !self && ci.ifaceKind() != f.fi.ifaceKind() {
+			f.fail(call, "call of %s over another kind of abstract interface value", ci.spec.lean)
+		}
 		if !(self && f.loop != nil) {
 			args = append(args, "I")
+		}
+	}
+	sig := callee.Type().(*types.Signature)
+	if ci.nocopy != nil {
+		// the behaviour of the NocopyWriter argument: the caller's own `J`, or the trivial instance next to a literal nil
+		for i, a := range call.Args {
+			if i < sig.Params().Len() && sig.Params().At(i) == ci.nocopy {
+				if info.Types[a].IsNil() {
+					args = append(args, "nilNocopy")
+				} else if _, ok := f.nilable(a); ok && f.fi.nocopy != nil {
+					args = append(args, "J")
+				} else {
+					f.fail(call, "NocopyWriter argument of %s must be nil or the caller's own parameter", ci.spec.lean)
+				}
+			}
 		}
 	}
 	for _, g := range ci.globals {
@@ -2523,9 +3070,17 @@ func (f *fctx) callMulti(b *blk, call *ast.CallExpr, n int) []string {
 			args = append(args, "fuel")
 		}
 	}
-	sig := callee.Type().(*types.Signature)
+	if len(ci.ords) > 0 {
+		// the callee ranges over maps: this call site gets its own iteration-order parameters
+		if f.loop != nil {
+			f.fail(call, "call of %s, which ranges over a map, inside a loop", ci.spec.lean)
+		}
+		for k, od := range ci.ords {
+			args = append(args, f.ordFor(call, k, od.ty))
+		}
+	}
 	var mutObjs []types.Object
-	if ci.recv != nil {
+	if ci.recv != nil && !ci.ifaceParam {
 		// a method of the same receiver: pass the receiver's current value, take the new one back
 		se, ok := stripParens(call.Fun).(*ast.SelectorExpr)
 		var ro types.Object
@@ -2537,12 +3092,49 @@ func (f *fctx) callMulti(b *blk, call *ast.CallExpr, n int) []string {
 		if ro == nil || f.fi.recv == nil || ro != types.Object(f.fi.recv) {
 			f.fail(call, "method %s called on something that is not the receiver", ci.spec.lean)
 		}
-		args = append(args, f.nameOf(ro))
+		switch {
+		case ci.recvOpt == f.fi.recvOpt:
+			args = append(args, f.nameOf(ro))
+		case ci.recvOpt:
+			args = append(args, "(some "+f.nameOf(ro)+")")
+		default:
+			f.fail(call, "method %s, whose receiver must not be nil, called on a receiver that may be nil", ci.spec.lean)
+		}
 		if ci.recvMut {
+			if f.fi.recvOpt {
+				f.fail(call, "method %s stores through a receiver that may be nil", ci.spec.lean)
+			}
 			mutObjs = append(mutObjs, ro)
 		}
 	}
 	for i, a := range call.Args {
+		if i < sig.Params().Len() && ci.ifaceParam && types.Object(sig.Params().At(i)) == types.Object(ci.recv) {
+			// the abstract interface value (a bufiox.Reader / Writer parameter of the callee): the caller's own, in/out,
+			// returned first
+			id, ok := stripParens(a).(*ast.Ident)
+			if !ok || f.fi.recv == nil || info.Uses[id] != types.Object(f.fi.recv) || !f.fi.iface {
+				f.fail(call, "the %s argument of %s must be the caller's own abstract interface value", sig.Params().At(i).Type(), ci.spec.lean)
+			}
+			args = append(args, f.nameOf(f.fi.recv))
+			mutObjs = append([]types.Object{f.fi.recv}, mutObjs...)
+			continue
+		}
+		if i < sig.Params().Len() && ci.nocopy != nil && sig.Params().At(i) == ci.nocopy {
+			if info.Types[a].IsNil() {
+				args = append(args, "(none : Option Unit)")
+				mutObjs = append(mutObjs, nil) // the state that comes back is dropped
+			} else {
+				nm, _ := f.nilable(a)
+				args = append(args, nm)
+				mutObjs = append(mutObjs, f.fi.nocopy)
+			}
+			continue
+		}
+		if i < sig.Params().Len() {
+			if _, used := ciParamUsed(ci, i); !used {
+				continue // a parameter the callee's body never mentions (context.Context): not a parameter of the translation
+			}
+		}
 		if ci.mutated[i] && leanType(sig.Params().At(i).Type()) != tBytes {
 			// in/out value (a *int or a map): `&x`, or a pointer / map variable passed through
 			ae := stripParens(a)
@@ -2598,6 +3190,9 @@ func (f *fctx) callMulti(b *blk, call *ast.CallExpr, n int) []string {
 		return s
 	}
 	for k, o := range mutObjs {
+		if o == nil {
+			continue
+		}
 		b.add(fmt.Sprintf("let %s := %s", f.nameOf(o), proj(k)))
 	}
 	var out []string
@@ -2610,6 +3205,27 @@ func (f *fctx) callMulti(b *blk, call *ast.CallExpr, n int) []string {
 	return out
 }
 
+// ciParamUsed: parameter i of the callee is a parameter of its translation (parameters of unsupported types that the body
+// never mentions are dropped)
+func ciParamUsed(ci *fnInfo, i int) (types.Object, bool) {
+	sig := ci.obj.Type().(*types.Signature)
+	p := sig.Params().At(i)
+	if leanType(p.Type()) != tBad || isNocopy(p.Type()) {
+		return p, true
+	}
+	if _, ok := ifaceParamKind(p.Type()); ok {
+		return p, true
+	}
+	used := false
+	ast.Inspect(ci.fd.Body, func(n ast.Node) bool {
+		if id, ok := n.(*ast.Ident); ok && ci.pk.TypesInfo.Uses[id] == types.Object(p) {
+			used = true
+		}
+		return !used
+	})
+	return p, used
+}
+
 // ---------------------------------------------------------------- whole function
 
 func findMutated(pk *packages.Package, fd *ast.FuncDecl, sig *types.Signature, t *ftr) map[int]bool {
@@ -2617,7 +3233,8 @@ func findMutated(pk *packages.Package, fd *ast.FuncDecl, sig *types.Signature, t
 	idx := map[types.Object]int{}
 	for i := 0; i < sig.Params().Len(); i++ {
 		idx[sig.Params().At(i)] = i
-		if isIntPtr(sig.Params().At(i).Type()) || isMap(sig.Params().At(i).Type()) {
+		// in/out values: *int, NocopyWriter; a map only when the body stores into it (directly or through a callee, below)
+		if isIntPtr(sig.Params().At(i).Type()) || isNocopy(sig.Params().At(i).Type()) {
 			mut[i] = true
 		}
 	}
@@ -2683,6 +3300,17 @@ func findMutated(pk *packages.Package, fd *ast.FuncDecl, sig *types.Signature, t
 	return mut
 }
 
+// ifaceKind: the record type of the abstract interface value the function works on
+func (fi *fnInfo) ifaceKind() string {
+	if kind, ok := ifaceRecv(fi.recv.Type()); ok {
+		return kind
+	}
+	if kind, ok := ifaceParamKind(fi.recv.Type()); ok {
+		return kind
+	}
+	return "ReaderI"
+}
+
 func (t *ftr) prepare(fi *fnInfo) {
 	if fi.mutated != nil || fi.fd == nil {
 		return
@@ -2690,6 +3318,46 @@ func (t *ftr) prepare(fi *fnInfo) {
 	fi.mutated = map[int]bool{} // cycle guard
 	sig := fi.obj.Type().(*types.Signature)
 	fi.mutated = findMutated(fi.pk, fi.fd, sig, t)
+	for i := 0; i < sig.Params().Len(); i++ {
+		if isNocopy(sig.Params().At(i).Type()) {
+			fi.nocopy = sig.Params().At(i)
+		}
+	}
+	// a pointer-to-struct receiver that the body compares with nil, or on which it calls a method that does: it may be nil
+	if rv := sig.Recv(); rv != nil && rv.Name() != "" && rv.Name() != "_" {
+		if _, isPtr := rv.Type().Underlying().(*types.Pointer); isPtr {
+			if _, _, ok := structOf(rv.Type()); ok {
+				info := fi.pk.TypesInfo
+				isRecv := func(e ast.Expr) bool {
+					id, ok := stripParens(e).(*ast.Ident)
+					return ok && info.Uses[id] == types.Object(rv)
+				}
+				ast.Inspect(fi.fd.Body, func(n ast.Node) bool {
+					switch x := n.(type) {
+					case *ast.BinaryExpr:
+						if (x.Op == token.EQL || x.Op == token.NEQ) &&
+							((isRecv(x.X) && info.Types[x.Y].IsNil()) || (isRecv(x.Y) && info.Types[x.X].IsNil())) {
+							fi.recvOpt = true
+						}
+					case *ast.CallExpr:
+						if se, ok := stripParens(x.Fun).(*ast.SelectorExpr); ok && isRecv(se.X) {
+							if sel, ok := info.Selections[se]; ok {
+								if fo, ok := sel.Obj().(*types.Func); ok {
+									if ci := t.all[fo.Origin()]; ci != nil && ci != fi {
+										t.prepare(ci)
+										if ci.recvOpt {
+											fi.recvOpt = true
+										}
+									}
+								}
+							}
+						}
+					}
+					return true
+				})
+			}
+		}
+	}
 	ast.Inspect(fi.fd.Body, func(n ast.Node) bool {
 		if c, ok := n.(*ast.CallExpr); ok {
 			if id, ok := stripParens(c.Fun).(*ast.Ident); ok && fi.pk.TypesInfo.Uses[id] == types.Object(fi.obj) {
@@ -2736,7 +3404,7 @@ func (t *ftr) translate(fi *fnInfo) {
 	}
 	sig := fi.obj.Type().(*types.Signature)
 	f := &fctx{t: t, fi: fi, pk: fi.pk, names: map[types.Object]string{}, used: map[string]int{}, views: map[types.Object]bool{},
-		globals: map[string]bool{}, deps: map[*fnInfo]bool{}}
+		globals: map[string]bool{}, deps: map[*fnInfo]bool{}, ordOf: map[ordKey]string{}}
 	if sig.Variadic() {
 		f.fail(fi.fd, "variadic")
 	}
@@ -2765,17 +3433,58 @@ func (t *ftr) translate(fi *fnInfo) {
 			if used {
 				fi.recv = rv
 				fi.recvMut = f.assignedIn(fi.fd.Body)[rv]
+				if fi.recvOpt {
+					// a receiver that may be nil is read-only: no store through it, no method on it that stores (checked at the call)
+					fi.recvMut = false
+					ast.Inspect(fi.fd.Body, func(n ast.Node) bool {
+						var lhs []ast.Expr
+						switch x := n.(type) {
+						case *ast.AssignStmt:
+							lhs = x.Lhs
+						case *ast.IncDecStmt:
+							lhs = []ast.Expr{x.X}
+						}
+						for _, l := range lhs {
+							e := stripParens(l)
+							for {
+								switch y := e.(type) {
+								case *ast.SelectorExpr:
+									e = stripParens(y.X)
+									continue
+								case *ast.IndexExpr:
+									e = stripParens(y.X)
+									continue
+								case *ast.StarExpr:
+									e = stripParens(y.X)
+									continue
+								}
+								break
+							}
+							if id, ok := e.(*ast.Ident); ok && fi.pk.TypesInfo.Uses[id] == types.Object(rv) {
+								f.fail(l, "store through a receiver that may be nil")
+							}
+						}
+						return true
+					})
+				}
 				params = append(params, fmt.Sprintf("(%s : %s)", f.nameOf(rv), f.tyOf(rv)))
+			} else {
+				fi.recvOpt = false
 			}
 		}
 	}
 	for i := 0; i < sig.Params().Len(); i++ {
 		p := sig.Params().At(i)
 		lt := leanType(p.Type())
-		if nt, ok := p.Type().(*types.Named); ok && nt.Obj().Pkg() != nil && nt.Obj().Pkg().Path() == mod+"bufiox" && nt.Obj().Name() == "Reader" && fi.recv == nil {
-			// a bufiox.Reader parameter: the abstract reader state, in/out, with its behaviour `I`
+		if _, ok := ifaceParamKind(p.Type()); ok && fi.recv == nil {
+			// a bufiox.Reader / bufiox.Writer parameter: the abstract state, in/out, with its behaviour `I`
 			fi.recv, fi.recvMut, fi.iface, fi.ifaceParam = p, true, true, true
 			params = append(params, fmt.Sprintf("(%s : ρ)", f.nameOf(p)))
+			continue
+		}
+		if isNocopy(p.Type()) && p.Name() != "" && p.Name() != "_" {
+			// a thrift.NocopyWriter parameter: `none` = the nil interface, in/out, with its behaviour `J`
+			params = append(params, fmt.Sprintf("(%s : Option ν)", f.nameOf(p)))
 			continue
 		}
 		if lt == tBad {
@@ -2843,12 +3552,12 @@ func (t *ftr) translate(fi *fnInfo) {
 	var gparams []string
 	var gargs []string
 	if fi.iface {
-		kind, ok := ifaceRecv(fi.recv.Type())
-		if !ok {
-			kind = "ReaderI"
-		}
-		gparams = append(gparams, "{ρ : Type} (I : "+kind+" ρ)")
+		gparams = append(gparams, "{ρ : Type} (I : "+fi.ifaceKind()+" ρ)")
 		gargs = append(gargs, "I")
+	}
+	if fi.nocopy != nil {
+		gparams = append(gparams, "{ν : Type} (J : NocopyI ν)")
+		gargs = append(gargs, "J")
 	}
 	for _, g := range fi.globals {
 		gparams = append(gparams, fmt.Sprintf("(g_%s : Bool)", g))
@@ -2867,6 +3576,13 @@ func (t *ftr) translate(fi *fnInfo) {
 	fi.fuel = f.fuel || fi.selfrec
 	if fi.fuel && !fi.selfrec {
 		gparams = append(gparams, "(fuel : Nat)")
+	}
+	fi.ords = f.ords
+	if len(fi.ords) > 0 && fi.selfrec {
+		f.fail(fi.fd, "iteration-order parameters in a self-recursive function")
+	}
+	for _, od := range fi.ords {
+		gparams = append(gparams, fmt.Sprintf("(%s : %s)", od.name, od.ty))
 	}
 	rt := "Unit"
 	if len(rts) > 0 {
